@@ -832,7 +832,15 @@ func (w *World) doNext(st *Step) {
 		st.Out = "block"
 		return
 	}
-	ev, err := c.sub.Next(context.Background())
+	// VerifReady said an item is deliverable; if the real Next disagrees (skips it and waits) this must
+	// become an observation, not a hang of the single-threaded harness
+	nctx, ncancel := context.WithTimeout(context.Background(), 3*time.Second)
+	ev, err := c.sub.Next(nctx)
+	ncancel()
+	if errors.Is(err, context.DeadlineExceeded) {
+		st.Out = "stuck"
+		return
+	}
 	switch {
 	case errors.Is(err, stream.ErrSubForceClosed):
 		st.Out = "force"
